@@ -12,6 +12,7 @@ OpSet ==
   \cup {Op("Catch", "Catch", 0, FALSE)}
   \cup {Op("OnErrorResumeNext", "OnErrorResumeNextWith", m, FALSE) : m \in 2..3}
   \cup {Op("Concat", g, m, FALSE) : g \in {"Concat", "ConcatWith"}, m \in 1..3}
+  \cup {Op("Concat", "SubscribeOn", 1, FALSE)}      \* subscribes its one source from a goroutine and waits for it: the outcomes pass through
 VARIABLES o, outs, conds, cancelAt, a, retries, out, nsubs, live, state
 R == INSTANCE Resub WITH Ops <- OpSet
 Spec == R!Spec
